@@ -51,6 +51,51 @@ def section(rep, wa, order=1, mutate=None):
     S.C.dom += [z3.Real('x%d' % i) >= -10 for i in range(n)] + [z3.Real('x%d' % i) <= 10 for i in range(n)]
     tag = '3D' if wa else '2D'
     meta = {'check': 'correct', 'params': {'wa': wa}}
+    # data-dependent branches of the code under test (none in the unmodified tree) are explored
+    # by the path executor: the obligations of a path hold under its path condition
+    from .. import paths
+    ex = paths.Exec(S.C.dom + S.deg_domain(), timeout_ms=4000)
+    orig_decide = ex.decide
+
+    def decide(cond):
+        for c_ in S.C.cons[getattr(ex, '_nc', 0):]:
+            ex.solver.add(c_)
+        ex._nc = len(S.C.cons)
+        return orig_decide(cond)
+    ex.decide = decide
+    dom0 = list(S.C.dom)
+    res, _ = ex.run(lambda: (setattr(ex, '_nc', 0), S.C.dom.__setitem__(slice(None), dom0), _section_body(S, enga, m, em, pva, x, eps, wa, order, tag, meta))[2], max_paths=64)
+    all_obls, info = [], None
+    for pr in res:
+        if pr.status == 'abort' and pr.out == 'INFEASIBLE':
+            continue
+        if pr.status == 'abort' and pr.out == 'UNKNOWN':
+            # a data-dependent branch the control solver could not decide: this path is not verified
+            rep.run.unknown.append('%s: a path of correct_pva / perturb_pva could not be decided by the control solver (branch on a symbolic value)' % tag)
+            continue
+        if pr.status != 'ok':
+            raise RuntimeError('correct_pva / perturb_pva failed symbolically: %s' % (pr.out,))
+        obls, info = pr.out
+        for ob in obls:
+            ob.extra = list(ob.extra) + list(pr.pc)
+        all_obls += obls
+    rep.run.encode(EM.InsErrorModel.correct_pva, EM.InsErrorModel.transform_to_output, EM.InsErrorModel.transform_to_internal,
+                   EM.InsErrorModel._transform_to_output_3d, EM.InsErrorModel._transform_3d_2d, EM._phi_to_delta_rph,
+                   T.compute_state_difference, T.perturb_lla, SIM.perturb_pva, m['U'].to_180_range)
+    if info is None:
+        raise RuntimeError('no path of correct_pva / perturb_pva could be executed symbolically')
+    info['n_paths'] = len([p_ for p_ in res if p_.status == 'ok'])
+    return all_obls, info
+
+
+def _section_body(S, enga, m, em, pva, x, eps, wa, order, tag, meta):
+    import numpy as np
+    import pandas as pd
+    import z3
+    from pyins.util import TRAJECTORY_COLS, TRAJECTORY_ERROR_COLS
+    EM, T, SIM = m['EM'], m['T'], m['SIM']
+    J, O = S.J, S.O
+    n = em.n_states
     obls = []
     Z = lambda name, e_, fam: obls.append(enga.zero('%s: %s' % (tag, name), e_, fam, meta=meta))
     # (b) applying eps*x as a correction changes the state by eps * T_out x
@@ -92,9 +137,6 @@ def section(rep, wa, order=1, mutate=None):
         for k in range(order + 1):
             Z('correct_pva returns VD as received (eps^%d)' % k, (J(pc['VD']) - pva['VD']).part(k), 'no-altitude: correction never changes altitude / VD')
             Z('correct_pva returns alt as received (eps^%d)' % k, (J(pc['alt']) - pva['alt']).part(k), 'no-altitude: correction never changes altitude / VD')
-    rep.run.encode(EM.InsErrorModel.correct_pva, EM.InsErrorModel.transform_to_output, EM.InsErrorModel.transform_to_internal,
-                   EM.InsErrorModel._transform_to_output_3d, EM.InsErrorModel._transform_3d_2d, EM._phi_to_delta_rph,
-                   T.compute_state_difference, T.perturb_lla, SIM.perturb_pva, m['U'].to_180_range)
     return obls, {'second': second, 'Tout': Tout, 'pva': pva, 'n': n}
 
 
